@@ -366,7 +366,11 @@ func genProgram(rng *vlib.Rand, fl genFlags) (string, []string, []string, map[st
 	b.WriteString("timer tm\n")
 	bk := "0, 1, 2.5, 10"
 	if fl.buckets {
-		bk = vlib.Pick(rng, []string{"0.0000001, 0.001, 1", "1e-9, 5e-7, 0.25", "0.00000025, 100, 1e6"})
+		bk = vlib.Pick(rng, []string{"0.0000001, 0.001, 1", "1e-9, 5e-7, 0.25", "0.00000025, 100, 1e6",
+			// whole-number boundaries beyond int64 (a bare digit string would lex as an
+			// integer literal and fail to parse), the largest and smallest float64
+			"0, 1e9, 1e19, 1e20", "9223372036854775807, 9223372036854775808, 18446744073709551616",
+			"5e-324, 1, 1.7976931348623157e308", "1000000, 2500000, 1e21, 1e22"})
 		g.feats["small-buckets"] = true
 	}
 	b.WriteString("histogram h buckets " + bk + " by k\n")
